@@ -10,7 +10,7 @@ from scipy.linalg import block_diag as _block_diag
 from . import payload as P
 
 LEAVES = {"Dense", "Tri", "Sparse", "Scalar", "Identity", "Diag", "Tridiag", "Perm", "House", "Kernel", "FFT",
-          "Generic", "Jac", "Hess", "Arr"}
+          "Generic", "Jac", "Hess", "Arr", "Lib"}
 
 
 class Inadmissible(Exception):
@@ -141,6 +141,20 @@ def ref(t, seed):
         return Ref(P.jac_fn(seed, t[1])[2], np.float64)
     if k == "Hess":
         return Ref(P.hess_fn(seed, t[1])[2], np.float64)
+    if k == "Lib":  # operators the library itself returns, used as leaves: ["Lib", which, n, tok]
+        which, n, tok = t[1], t[2], t[3]
+        if which == "TriInv":
+            return Ref(np.linalg.inv(P.tri(seed, n, tok, True, "unit").astype(np.complex128)), P.dt(tok))
+        if which == "TriInvUpper":
+            return Ref(np.linalg.inv(P.tri(seed, n, tok, False, "g").astype(np.complex128)), P.dt(tok))
+        if which in ("CGInv", "LSTSQ"):
+            return Ref(np.linalg.inv(P.dense(seed, (n, n), tok, "spd").astype(np.complex128)), P.dt(tok))
+        if which == "ExpLanczos":
+            from scipy.linalg import expm
+            return Ref(expm(P.dense(seed, (n, n), tok, "spd").astype(np.complex128) / 8.0), P.dt(tok))
+        if which == "PinvWide":
+            return Ref(np.linalg.pinv(P.dense(seed, (n, n + 1), tok, "rdd").astype(np.complex128)), P.dt(tok))
+        raise ValueError(which)
     if k in ("NoDisp", "Ann", "densify_lazify"):
         return ref(children(t)[0], seed)
     if k in ("matmul", "Product"):
@@ -220,6 +234,8 @@ def shape_of(t):
         return tuple(t[1])
     if k in ("Tri", "Identity", "Diag", "Tridiag", "Perm", "House", "FFT", "Hess"):
         return (t[1], t[1])
+    if k == "Lib":
+        return (t[2] + 1, t[2]) if t[1] == "PinvWide" else (t[2], t[2])
     if k == "Scalar":
         return (t[2], t[2])
     if k in ("NoDisp", "Ann", "neg", "lmul", "rmul", "div", "rdiv", "densify_lazify"):
@@ -271,6 +287,8 @@ def is_complex_term(t):
         if s[0] in ("Dense", "Tri", "Sparse", "Diag", "Tridiag", "House", "Kernel", "Generic", "Arr", "FFT", "Identity"):
             if P.is_cplx(s[2]):
                 return True
+        if s[0] == "Lib" and P.is_cplx(s[3]):
+            return True
         if s[0] == "Scalar" and (P.is_cplx(s[3]) or s[1] in ("cj", "arrcj")):
             return True
         if s[0] in ("lmul", "rmul", "div") and (s[1] if s[0] == "lmul" else s[2]) in ("cj", "arrcj"):
@@ -292,7 +310,7 @@ def low_precision(t):
     return False
 
 
-INEXACT_KINDS = {"FFT", "Jac", "Hess"}
+INEXACT_KINDS = {"FFT", "Jac", "Hess", "Lib"}
 
 
 def is_exact(t, mat, result_dtype=None):
@@ -325,13 +343,15 @@ def signature(t):
     """finding-key signature: kind tree with dtype class and shape class, payload variants abstracted"""
     k = t[0]
     if k in LEAVES:
-        tok = {"Scalar": 3, "Perm": 3}.get(k, 2)
+        tok = {"Scalar": 3, "Perm": 3, "Lib": 3}.get(k, 2)
         d = t[tok] if len(t) > tok and isinstance(t[tok], str) else "-"
         extra = ""
         if k == "Scalar":
             extra = "," + str(t[1])
         if k == "Tri":
             extra = "," + ("lo" if t[3] else "up")
+        if k == "Lib":
+            extra = "," + str(t[1])
         try:
             sc = shape_class(shape_of(t))
         except Inadmissible:
